@@ -25,7 +25,7 @@ def make_fd(shape, order, bnd, pshape=None):
     import aurel
     ps = pshape or shape
     param = {"Nx": ps[0], "Ny": ps[1], "Nz": ps[2], "xmin": 0.0, "ymin": 0.0, "zmin": 0.0,
-             "dx": 1.0, "dy": 1.0, "dz": 1.0}
+             "dx": 0.5, "dy": 0.25, "dz": 0.125}   # distinct, exactly representable spacings
     return aurel.FiniteDifference(param, boundary=BND[bnd], fd_order=order, verbose=False)
 
 
@@ -171,7 +171,7 @@ def search(ctx, budget):
                 for j_in in range(W.shape[1]):
                     jdx = np.unravel_index(j_in, shape)
                     same_line = all(jdx[a] == idx[a] for a in range(3) if a != axis)
-                    e = float(exp.get(jdx[axis], 0)) if same_line else 0.0
+                    e = float(exp.get(jdx[axis], 0)) * (2.0, 4.0, 8.0)[axis] if same_line else 0.0
                     if abs(W[o, j_in] - e) > 4e-16 * max(1.0, abs(e)):
                         found += ctx.violation(
                             "d3%s order %d %s N=%d: weight of sample %s in output %s is %r, standard weight %r"
